@@ -1,7 +1,8 @@
 """C10 — auto-selected amplifiers are allowed, capable and the quietest capable choice.
 
 Correspondence: network.select_edfa / filter_edfa_list_based_on_targets / edfa_nf vs Gnpy.Select.selectEdfa/acceptable/
-edfaNf (type_variety exact, power and gain_min attributes bit-exact, NF class F, NF ties class D);
+edfaNf (type_variety exact, power and gain_min attributes bit-exact, NF class F; NF ties within 1e-9 dB between
+different formulas are class D: the implementation's choice must then be one of the tied candidates);
 get_node_restrictions on real Edfa / Multiband_amplifier / Roadm / Fiber elements vs nodeRestrictions(Multi);
 raman_allowed vs ramanAllowed; whole small topologies through worker_utils.designed_network with select_edfa /
 get_node_restrictions observed by run-time wrappers; preselect_multiband_amps vs preselect.
@@ -355,6 +356,24 @@ def nf_close(a, b):
     return abs(a - b) <= 1e-9 * max(1.0, abs(a))
 
 
+def nf_tie(macc, chosen, impl_nf=None):
+    """class-D guard of the NF ranking: varieties of the acceptable candidates whose NF is within 1e-9 dB of the chosen
+    one's. Returns (tied_names, exact): exact = the tie is harmless for an exact comparison, i.e. there is no tie, or
+    the tied candidates carry bit-identical NF on BOTH sides (same formula on same numbers: both sides then keep the
+    first). A tie between different formulas (e.g. a dual stage with a noiseless preamp vs its own booster model
+    below minimum gain: mathematically equal NF) may resolve differently in numpy and libm by one ulp."""
+    best = next((b2f(x['nf']) for x in macc if x['variety'] == chosen), None)
+    if best is None:
+        return [], True
+    tied = [x for x in macc if nf_close(b2f(x['nf']), best)]
+    names = [x['variety'] for x in tied]
+    if len(tied) <= 1:
+        return names, True
+    same_model = len({x['nf'] for x in tied}) == 1
+    same_impl = impl_nf is not None and len({f2b(impl_nf[n]) for n in names if n in impl_nf}) == 1
+    return names, (same_model and same_impl)
+
+
 def own_attrs(a, gain, power, ext, eq=None):
     """power / gain_min attributes and NF of one model for the targets (own arithmetic)"""
     p_max, gfm = limits_of(a, eq)
@@ -418,13 +437,14 @@ def run_select(case, drv):
             for x, y in zip(acc, macc):
                 if not nf_close(x.nf, b2f(y['nf'])):
                     res.mismatch('edfa_nf', float(x.nf), b2f(y['nf']), variety=x.variety)
-        gap = b2f(m['nf_gap'])
-        if gap < 1e-9:
-            res.ill += 1
-            res.stats['sel_nf_tie_skipped'] += 1
-        else:
+        tied, exact = nf_tie(macc, m['variety'], {x.variety: float(x.nf) for x in acc})
+        if exact:
             res.cmp_exact('select_edfa.variety', variety, m['variety'])
             res.cmp_float('select_edfa.power_reduction', red, b2f(m['reduction']), abs_=1e-12)
+        else:
+            res.ill += 1
+            res.stats['sel_nf_tie_skipped'] += 1
+            res.cmp_exact('select_edfa.variety_among_nf_ties', variety in tied, True, chosen=variety, tied=tied)
         permitted = set(edfa_eqpt)
         monitor_choice(res, eq, permitted, ok, gain, power, ext, variety, red)
         res.stats.update({'sel_reduced': int(red < 0), f'sel_acceptable_{min(len(acc), 4)}': 1,
@@ -618,11 +638,20 @@ def run_topo(case, drv):
         if s['out'] is None or 'error' in m:
             res.cmp_exact('select_edfa.rejects', s['out'] is None, 'error' in m, uid=s['uid'])
             continue
-        if b2f(m['nf_gap']) < 1e-9:
-            res.ill += 1
-        else:
+        impl_nf = {}
+        for x in m['acceptable']:
+            try:
+                impl_nf[x['variety']] = float(gnet.edfa_nf(s['gain'], eq['Edfa'][x['variety']]))
+            except Exception:  # noqa: BLE001
+                pass
+        tied, exact = nf_tie(m['acceptable'], m['variety'], impl_nf)
+        if exact:
             res.cmp_exact('select_edfa.variety', s['out'][0], m['variety'], uid=s['uid'])
             res.cmp_float('select_edfa.power_reduction', s['out'][1], b2f(m['reduction']), abs_=1e-12, uid=s['uid'])
+        else:
+            res.ill += 1
+            res.cmp_exact('select_edfa.variety_among_nf_ties', s['out'][0] in tied, True, chosen=s['out'][0], tied=tied,
+                          uid=s['uid'])
     # ---------------- monitor on the designed network
     if err is None:
         by = nets.by_uid(net)
